@@ -322,6 +322,14 @@ def enumerate_cases(tier):
             add(["name", "from", ".", "where", "size", "@", "12", "and", "name", "@", "a.txt"], "@", g, "operator")
     cases.append({"toks": ["name", "from", ".", "where", "name", "notlike", "'%.txt'"],
                   "renderings": [{"kind": "alias-table/operator/notlike->not like", "argv": ["name from . where name not like '%.txt'"]}]})
+    # the two-word spellings behind a leading NOT of the same condition: two negations, in either spelling
+    for one, two, lit in (("notlike", "not like", "'%.txt'"), ("notrx", "not rx", "'^a'"), ("notrx", "not regexp", "'^a'"), ("notrx", "not =~", "'^a'")):
+        for lead in ([], ["size", ">=", "0", "and"], ["not"]):
+            toks = ["name", "from", ".", "where"] + lead + ["not", "name", one, lit]
+            head = "name from . where " + " ".join(lead + ["not", "name"])
+            cases.append({"toks": toks, "renderings": [
+                {"kind": "alias-table/operator/not+%s->%s" % (one, two), "argv": ["%s %s %s" % (head, two, lit)]},
+                {"kind": "alias-table/operator/not+%s->%s/words" % (one, two), "argv": (head.upper() + " " + two.upper()).split(" ") + [lit]}]})
     for g in lang.ARITH_ALIASES:
         add(["select", "size", "@", "2", "from", ".", "where", "size", "@", "2", ">", "1", "order", "by", "size", "@", "2", "desc"], "@", g, "arithmetic")
     for g in lang.ROOT_OPTION_ALIASES:
